@@ -1333,3 +1333,119 @@ def rf155(run):
                           'with 8-byte stores at offsets 0 and 8: for a 12-byte struct the second store overlaps the next block (or the saved registers '
                           'behind the area), so a native caller\'s arguments arrive changed' % how, line=th['l'])
     return n
+
+
+# ---------------------------------------------------------------------------------------------
+# RF186: integer results come back in rax, then rdx
+# ---------------------------------------------------------------------------------------------
+
+def rf186(run):
+    from lib import enumflow as EF
+    import re
+    rule = 'RF186'
+    run.rule(rule, 'x86-64 generator, results of calls (machinize_call) and operands of ret (target_machinize): every expression that *chooses* a '
+                   'hard register for an integer-class result from a running count — a conditional or a sum that mentions AX_HARD_REG and a '
+                   'non-constant count, in these functions or in a helper they call — is evaluated for the counts 0 and 1 and yields rax, then '
+                   'rdx (psABI; the interpreter shim and the FFI trampoline use the same pair).  `AX_HARD_REG + n` names rcx for the second '
+                   'result: the hard-register enumeration is ax, cx, dx')
+    tu = run.tu('gen')
+    from lib import miniexec as ME
+    preds = ME.Env(tu)
+    regs = dict(tu.enum_by_member('AX_HARD_REG')[1])
+    roots = ['machinize_call', 'target_machinize']
+    names = set(roots)
+    for r in roots:
+        g = tu.func(r)
+        for x in g.walk():
+            cg = tu.funcs.get(x.get('callee')) if x['k'] == 'CallExpr' and x.get('callee') else None
+            if cg is not None and cg.body is not None and cg.file.endswith('mir-gen-x86_64.c'):
+                names.add(x['callee'])
+    n = 0
+    for fn in sorted(names):
+        g = tu.func(fn)
+        cands = []
+        for x in g.walk():
+            if x['k'] in ('ConditionalOperator', 'BinaryOperator') and (x['k'] != 'BinaryOperator' or x['op'] == '+'):
+                if any(y['k'] == 'DeclRefExpr' and y['n'] == 'AX_HARD_REG' for y in F.walk(x)):
+                    cands.append(x)
+        # maximal candidates only
+        ids = [set(y['i'] for y in F.walk(c)) for c in cands]
+        top = [c for k, c in enumerate(cands) if not any(c['i'] in ids[j] and j != k for j in range(len(cands)))]
+        for c in top:
+            counters = set()
+            for y in F.walk(c):
+                if y['k'] == 'DeclRefExpr' and y.get('dk') in ('local', 'param') and re.search(r'n_?i?regs?|iregs|count|num', y['n']):
+                    counters.add(y['n'])
+            if not counters:
+                continue
+            run.functions_analysed.add(('gen', fn))
+            got = []
+            for k in (0, 1):
+                env = {}
+                for cn in counters:
+                    for form in (cn, '*%s' % cn, '(*%s)' % cn, '%s++' % cn, '(*%s)++' % cn, '*%s++' % cn):
+                        env[form] = k
+                v = preds.eval(c, env, frozenset())
+                got.append(v)
+            if any(v is None for v in got):
+                raise F.AnalysisBroken('%s: the choice of the result register `%s` is not evaluable' % (fn, F.src(c)[:60]))
+            want = [regs['AX_HARD_REG'], regs['DX_HARD_REG']]
+            ok = got == want
+            inv = {v: k for k, v in regs.items()}
+            n += 1
+            run.ob(rule, (fn, c['l']), ok, {'site': '%s:%d %s' % (g.relfile(), c['l'], fn), 'expression': F.src(c)[:60],
+                                           'result registers for counts 0, 1': [inv.get(v, v) for v in got]})
+            if not ok:
+                run.violation(rule, g, 'second integer result not in rdx', '%s chooses the register of an integer result with `%s`: for the counts 0 and 1 '
+                              'that is %s, the ABI says rax, rdx — a native caller (or the interpreter) reads the second word of a 16-byte '
+                              'struct result from rdx' % (fn, F.src(c)[:50], ', '.join(str(inv.get(v, v))[:-9].lower() for v in got)), line=c['l'])
+    run.control(rule, 'result-register choices found (call results and ret)', n >= 1)
+    return n
+
+
+# ---------------------------------------------------------------------------------------------
+# RF187: the FFI trampoline advances a register counter only when it hands out registers
+# ---------------------------------------------------------------------------------------------
+
+def rf187(run):
+    import rf_proto
+    rule = 'RF187'
+    run.rule(rule, 'x86-64 interpreter FFI trampoline (_MIR_get_ff_call): the counters of used integer and vector argument registers change '
+                   'only under a test that registers of that class are still available (`n < max`, `n + qwords <= max`).  An argument that '
+                   'goes to the stack — a by-value block that does not fit the remaining registers of its class — leaves the counters alone: '
+                   'under the psABI only that argument goes to memory, later arguments still use the free registers, and the generator\'s '
+                   'call sequence, the prologue, va_start and va_block_arg all follow that rule.  A trampoline that marks the class '
+                   'exhausted passes a following int on the stack while every callee reads it from r9')
+    tu = run.tu('mir')
+    f = tu.func('_MIR_get_ff_call')
+    run.functions_analysed.add(('mir', f.name))
+    cfg = f.cfg
+    counters = ('n_iregs', 'n_xregs')
+    n = 0
+    for x in f.walk():
+        tgt = None
+        if x['k'] == 'UnaryOperator' and x['op'] in ('++', '--'):
+            tgt = F.src(F.strip(x['c'][0]))
+        elif x['k'] in ('BinaryOperator', 'CompoundAssignOperator') and x['op'] in ('=', '+=', '-='):
+            tgt = F.src(F.strip(x['c'][0]))
+        if tgt not in counters:
+            continue
+        if x['k'] == 'BinaryOperator' and x['op'] == '=':
+            r = F.strip(x['c'][1])
+            while r['k'] == 'BinaryOperator' and r['op'] == '=':
+                r = F.strip(r['c'][1])
+            if F.const_value(r) == 0:
+                continue    # the counters start again for the results
+        b = cfg.block_of(x)
+        conds = rf_proto.dominating_conditions(cfg, b) if b is not None else []
+        mx = 'max_' + tgt[2:]
+        ok = any(t and tgt in c and (mx in c or '%s <' % tgt in c) for c, t in conds)
+        n += 1
+        run.ob(rule, (tgt, x['l']), ok, {'site': '%s:%d' % (f.relfile(), x['l']), 'update': F.src(x)[:40]})
+        if not ok:
+            run.violation(rule, f, 'register counter changed without handing out a register', '`%s` (line %d) changes the counter of %s argument registers '
+                          'on a path where no test says that such registers are available: registers that are still free are skipped, and the '
+                          'next argument of that class is passed on the stack while the callee — generated code, the interpreter shim or a C '
+                          'function — takes it from the register' % (F.src(x)[:40], x['l'], 'integer' if tgt == 'n_iregs' else 'vector'), line=x['l'])
+    run.control(rule, 'counter updates of the trampoline found', n >= 8)
+    return n
